@@ -633,19 +633,29 @@ func (g *ExprGen) Gen(in []*ref.V, depth int) *ref.Expr {
 		if first(in).K == ref.Seq && r.IntN(2) == 0 {
 			src = &ref.Expr{Op: ref.OpSplat}
 		}
+		// the loop variable sometimes re-uses the name of a variable that is in scope: the outer binding is back afterwards
+		nm := "i"
+		if len(g.vars) > 0 && r.IntN(2) == 0 {
+			nm = g.vars[r.IntN(len(g.vars))]
+		}
 		var init, body *ref.Expr
 		switch r.IntN(3) {
 		case 0:
 			init = ref.Lit(ref.IntV(0))
-			body = ref.Bin("+", ref.Self(), ref.Pipe(&ref.Expr{Op: ref.OpVar, S: "i"}, ref.Fn0("length")))
+			body = ref.Bin("+", ref.Self(), ref.Pipe(&ref.Expr{Op: ref.OpVar, S: nm}, ref.Fn0("length")))
 		case 1:
 			init = &ref.Expr{Op: ref.OpCollect}
-			body = ref.Bin("+", ref.Self(), &ref.Expr{Op: ref.OpCollect, L: &ref.Expr{Op: ref.OpVar, S: "i"}})
+			body = ref.Bin("+", ref.Self(), &ref.Expr{Op: ref.OpCollect, L: &ref.Expr{Op: ref.OpVar, S: nm}})
 		default:
 			init = ref.Lit(ref.StrV(""))
 			body = ref.Bin("+", ref.Self(), ref.Lit(ref.StrV("x")))
 		}
-		return &ref.Expr{Op: ref.OpReduce, L: src, S: "i", Args: []*ref.Expr{init}, R: body}
+		red := &ref.Expr{Op: ref.OpReduce, L: src, S: nm, Args: []*ref.Expr{init}, R: body}
+		if nm != "i" && r.IntN(2) == 0 {
+			// ... and is read right after the reduce
+			return ref.Pipe(red, &ref.Expr{Op: ref.OpCollect, L: ref.Union(ref.Self(), &ref.Expr{Op: ref.OpVar, S: nm})})
+		}
+		return red
 	}
 }
 
